@@ -12,6 +12,7 @@ from . import _tcommon as TC
 from . import c01_unary as U
 from . import c01_binary as B
 from . import c01_ncon as N
+from . import c01_fused as F
 
 PROPERTY_ID = 'C01'
 LEVEL = 'exploration'
@@ -73,6 +74,7 @@ def groups(tier, seed):
                 gs.append(dict(base, sec='unary', rank=4, part=0, parts=1, level=1, reduced=True))
             gs.extend(B.groups(base, tier))
             gs.extend(N.groups(base, tier))
+            gs.extend(F.groups(base, tier))
     return gs
 
 
@@ -84,6 +86,8 @@ def run_group(g, acc):
         return B.run_group(g, cfg, acc)
     if g['sec'].startswith('n_'):
         return N.run_group(g, cfg, acc)
+    if g['sec'].startswith('f_'):
+        return F.run_group(g, cfg, acc)
     raise KeyError(g['sec'])
 
 
@@ -136,6 +140,8 @@ def replay(case):
         return B.replay(case, cfg)
     if case.get('sec', '').startswith('n_'):
         return N.replay(case, cfg)
+    if case.get('sec', '').startswith('f_'):
+        return F.replay(case, cfg)
     return [f"unknown section {case.get('sec')}"]
 
 
